@@ -6,7 +6,8 @@ JSON front end for the export model (`Model/Export.lean`): driver commands prefi
   implementation iterated `graph.nodes` / `graph.edges` of each view.  networkx fixes neither (a subgraph view that keeps
   fewer than half of the nodes iterates a Python set), and io.py's output depends on it (order of the entries, which
   column's owner names a shared parent entry), so the harness hands the observed order back and the model's view is
-  permuted accordingly before `toCytoscape` runs; ids that the model does not have are ignored, model nodes that the hint
+  permuted accordingly before `toCytoscape` runs (a node hint may be `[id, k]`: the k‑th still unused model node printing
+  `id`, needed only when several nodes print alike); ids that the model does not have are ignored, model nodes that the hint
   does not mention stay behind in their own order (the comparison then fails, as it should).
   Output: `{"sql": […], "out": {"error": e} | {"table": {"elems": […], "wf": b, "print_injective": b}, "column": {…},
   "summary": text, "sections": {source, target, intermediate}, "nstmts": n}}` with `elems` in exactly the JSON shape
@@ -30,42 +31,49 @@ def elemToJson : Elem → Json
   | .parent i t => Json.mkObj [("data", Json.mkObj [("id", .str i), ("type", .str t)])]
   | .edge i s t => Json.mkObj [("data", Json.mkObj [("id", .str i), ("source", .str s), ("target", .str t)])]
 
-/-- remove the first element satisfying `p` -/
-def extractFirst {α : Type} (p : α → Bool) : List α → Option (α × List α)
-  | [] => none
-  | x :: r => if p x then some (x, r) else
-      match extractFirst p r with
-      | some (y, r') => some (y, x :: r')
-      | none => none
+/-- remove the `k`‑th (0‑based) element satisfying `p` -/
+def extractNth {α : Type} (p : α → Bool) : Nat → List α → Option (α × List α)
+  | _, [] => none
+  | k, x :: r =>
+    if p x then
+      match k with
+      | 0 => some (x, r)
+      | k' + 1 => (extractNth p k' r).map (fun yr => (yr.1, x :: yr.2))
+    else (extractNth p k r).map (fun yr => (yr.1, x :: yr.2))
 
-/-- permute `l` so that its keys follow `hint` (first unused element with each key); leftovers keep their order -/
-def reorderBy {α : Type} (key : α → String) : List String → List α → List α
+/-- permute `l` so that its keys follow `hint`: each hint `(key, k)` takes the `k`‑th still unused element with that key
+    (`k = 0` unless several elements print alike — D24 — and the harness has to say which one came first); leftovers keep
+    their order -/
+def reorderBy {α : Type} (key : α → String) : List (String × Nat) → List α → List α
   | [], rest => rest
   | h :: hs, rest =>
-    match extractFirst (fun x => key x == h) rest with
+    match extractNth (fun x => key x == h.1) h.2 rest with
     | some (x, rest') => x :: reorderBy key hs rest'
     | none => reorderBy key hs rest
 
 def edgeKey (g : LGraph) (e : Node × Node) : String := printedNode g e.1 ++ "\u0001" ++ printedNode g e.2
 
 /-- the view with `graph.nodes` / `graph.edges` iterating in the hinted order -/
-def reorderView (g : LGraph) (nodes : Option (List String)) (edges : Option (List (String × String))) : LGraph :=
+def reorderView (g : LGraph) (nodes : Option (List (String × Nat))) (edges : Option (List (String × String))) : LGraph :=
   let g1 : LGraph := match nodes with
     | some h => { g with nodes := reorderBy (printedNode g) h g.nodes }
     | none => g
   match edges with
-  | some h => { g1 with edges := reorderBy (edgeKey g) (h.map (fun p => p.1 ++ "\u0001" ++ p.2)) g1.edges }
+  | some h => { g1 with edges := reorderBy (edgeKey g) (h.map (fun p => (p.1 ++ "\u0001" ++ p.2, 0))) g1.edges }
   | none => g1
 
 def decidePrintInjective (g : LGraph) (c : Bool) : Bool :=
   nodupb ((items g c).map (printItem g))
 
-def hintOf (j : Json) (level : String) : Option (List String) × Option (List (String × String)) :=
+def hintOf (j : Json) (level : String) : Option (List (String × Nat)) × Option (List (String × String)) :=
   match (j.getObjVal? "order").toOption.bind (fun o => (o.getObjVal? level).toOption) with
   | none => (none, none)
   | some o =>
     let ns := match (o.getObjVal? "nodes").toOption with
-      | some (.arr a) => some (a.toList.filterMap (fun x => match x with | .str s => some s | _ => none))
+      | some (.arr a) => some (a.toList.filterMap (fun x => match x with
+          | .str s => some (s, 0)
+          | .arr #[.str s, k] => some (s, (k.getNat?).toOption.getD 0)
+          | _ => none))
       | _ => none
     let es := match (o.getObjVal? "edges").toOption with
       | some (.arr a) => some (a.toList.filterMap (fun x => match x with
@@ -73,7 +81,7 @@ def hintOf (j : Json) (level : String) : Option (List String) × Option (List (S
       | _ => none
     (ns, es)
 
-def levelJson (G : LGraph) (l : Level) (hint : Option (List String) × Option (List (String × String))) : Json :=
+def levelJson (G : LGraph) (l : Level) (hint : Option (List (String × Nat)) × Option (List (String × String))) : Json :=
   let v := reorderView (view G l) hint.1 hint.2
   let c := (l == .column)
   Json.mkObj [
